@@ -212,6 +212,8 @@ class MultiTypeMap(dict):
         from .dependent import is_dependent
 
         self.clear()
+        self.errors.clear()
+        self.all.clear()
         _verif.point("mtm.clear")
 
         obj_t_tup = sig.types
